@@ -200,6 +200,33 @@ func stringLits(rel, fn string) []string {
 	return out
 }
 
+// keyedStringLits returns the string literals inside the value of the composite-literal field `key`.
+func keyedStringLits(rel, fn, key string) []string {
+	fd := funcDecl(rel, fn)
+	if fd == nil {
+		die("function %s not found in %s", fn, rel)
+	}
+	var out []string
+	ast.Inspect(fd, func(n ast.Node) bool {
+		kv, ok := n.(*ast.KeyValueExpr)
+		if !ok {
+			return true
+		}
+		if k, ok := kv.Key.(*ast.Ident); ok && k.Name == key {
+			ast.Inspect(kv.Value, func(m ast.Node) bool {
+				if bl, ok := m.(*ast.BasicLit); ok && bl.Kind == token.STRING {
+					s, _ := strconv.Unquote(bl.Value)
+					out = append(out, s)
+				}
+				return true
+			})
+			return false
+		}
+		return true
+	})
+	return out
+}
+
 // callArgs returns, for every call of selector/ident `callee` in fn, its first argument evaluated.
 func callStringArgs(rel, fn, callee string) []string {
 	fd := funcDecl(rel, fn)
@@ -843,7 +870,10 @@ func main() {
 	sC("nc_v1dot0_delim", "response/netconf.go", "v1Dot0Delim")
 	sC("nc_xml_header", "response/netconf.go", "xmlHeader")
 	natC("nc_max_chunk_size_char_len", "response/netconf.go", "maxChunkSizeCharLen")
-	lits := stringLits("response/netconf.go", "NewNetconfResponse")
+	lits := keyedStringLits("response/netconf.go", "NewNetconfResponse", "FailedWhenContains")
+	if len(lits) == 0 {
+		die("NewNetconfResponse: FailedWhenContains literal list not found")
+	}
 	p("Definition nc_failed_markers : list bytes := %s.", coqBytesList(lits))
 	rp := keyedRegexes("response/netconf.go", "getNetconfPatterns")
 	for _, k := range []string{"rpcErrors", "rpcSingleErrors"} {
